@@ -830,6 +830,103 @@ reg(Spec(
               "2^20 eps bound over edge-of-domain workloads in 18 build "
               "configurations + digest comparison self-checks on/off"))
 
+# ----------------------------------------------------------------------- C19
+import re  # noqa: E402
+import subprocess  # noqa: E402
+
+
+def c19_runs(tier, seed):
+    N = q(tier, 7, 10)
+    runs = [
+        RunSpec("gen", "Q", "plain", q(tier, 6000, 300000)),
+        RunSpec("eval", "Q", "plain", q(tier, 6000, 300000)),
+        RunSpec("pool", "Q", "plain", q(tier, 160, 10000)),
+        RunSpec("pool", "Q", "nochk", q(tier, 160, 10000)),
+        RunSpec("ops", "Q", "plain", q(tier, 30000, 1000000)),
+        RunSpec("grids", "Q", "plain", q(tier, 40000, 1000000)),
+        RunSpec("access", "Q", "plain", access_cases(N), params={"maxn": N}),
+        RunSpec("validate", "Q", "plain", q(tier, 1500, 60000),
+                params={"gridblocks": q(tier, 300, 6000), "gridpercase": 64}),
+        RunSpec("interp", "Q", "plain", q(tier, 3000, 100000)),
+    ]
+    runs += expr_runs(tier, seed, scalars=("Q",))
+    return runs
+
+
+def c19_post(res, tier, seed):
+    """what was actually instantiated over the archetype (nm -C)"""
+    names = set()
+    for rs, run in res.extra.get("pairs", []):
+        try:
+            out = subprocess.run(["nm", "-C", "--defined-only", run.target.bin],
+                                 capture_output=True, text=True,
+                                 timeout=300).stdout
+        except (OSError, subprocess.SubprocessError):
+            continue
+        for line in out.splitlines():
+            parts = line.split(" ", 2)
+            if len(parts) < 3:
+                continue
+            sym = parts[2]
+            if "vq::Q" not in sym or "bspline::" not in sym:
+                continue
+            # drop template arguments (innermost first) and the parameter list
+            core = sym
+            for _ in range(40):
+                new = re.sub(r"<[^<>]*>", "", core)
+                if new == core:
+                    break
+                core = new
+            core = core.split("(")[0]
+            i = core.find("bspline::")
+            core = core[i:].strip()
+            if core and re.match(r"^bspline::[\w:~+\-*/=!<> ]+$", core):
+                names.add(core)
+    res.counters["instantiated-library-entities-over-archetype"] = len(names)
+    res.extra["coverage"] = {
+        "library_templates_instantiated_over_archetype": sorted(names)[:400]}
+    for n in names:
+        res.hashes.add("nm:" + n)
+
+
+reg(Spec(
+    "C19", "the scalar type needs only the documented operations", c19_runs,
+    rule=("the archetype scalar vq::Q (harness/vq.h) offers exactly: "
+          "default/copy construction (a default-constructed value is "
+          "indeterminate: reading it is counted), explicit construction from a "
+          "built-in integer, + - * / with compound forms, unary minus, six "
+          "comparisons; conversion from floating types is deleted, "
+          "numeric_limits is specialised without members, there is no "
+          "operator<< and no <cmath> overload. Observations: (a) every "
+          "translation unit over the archetype - generator, evaluation, pool "
+          "machine (with and without the self-checks), primitive operators, "
+          "cross-grid calls, accessors, validation, generic interpolate with a "
+          "harness-side exact solver written with the same operations, and all "
+          "generated operator-expression programs incl. integer scalars in "
+          "every position - compiles against the current tree (a compile "
+          "error is the violation, the compiler log the witness); (b) run with "
+          "their exact oracles, no result deviates (a violation of any "
+          "property in these runs is reported here as well) and no "
+          "indeterminate value is read; (c) evidence: the bspline:: templates "
+          "found instantiated over the archetype in the binaries (nm -C) and "
+          "the operations the archetype counted at run time. "
+          "distinct_nontrivial = distinct non-trivial cases of the runs plus "
+          "distinct instantiated library entities."),
+    required=["generated", "inside-checked", "c03:checked:mul", "applied",
+              "calls", "pairs", "problems", "apply", "bilinear", "linear",
+              "vq:add", "vq:mul", "vq:div", "vq:compare", "vq:from-integer",
+              "instantiated-library-entities-over-archetype"],
+    assumptions=["a template or member the harness never instantiates is not "
+                 "covered; the evidence lists what was",
+                 "numerical quadrature (boost Gauss-Legendre) needs a "
+                 "floating type and is not part of the claim"],
+    evaluations=None,
+    any_prop=True,
+    post=c19_post,
+    technique="compile-and-run monitor with a minimal archetype scalar "
+              "(indeterminate default value, deleted conversions) under exact "
+              "oracles"))
+
 # ------------------------------------------------- pool machine: C03/10/14/15
 POOL_RULE = ("one case = one history of 150 steps over a pool of 15 splines "
              "(orders 0..4, three slots each, on a grid of 6..10 points held in "
